@@ -88,6 +88,7 @@ func extract(ctx context.Context, rs io.ReadSeeker, scanFunc func() osm.Scanner,
 					switch objType := obj.(type) {
 					case *osm.Node:
 						if o.processNode(obj.(*osm.Node), keep, keepTags) {
+							simBeforeMutex(&passMX)
 							passMX.Lock()
 							needAnotherPass = true
 							passMX.Unlock()
